@@ -317,9 +317,11 @@ class Parser:
         buf.next()
         # skip space for macros without arguments, even if known;
         # but do not swallow a language switch, e.g., the one that closes
-        # the argument of \foreignlanguage
+        # the argument of \foreignlanguage, and stop where a macro argument
+        # ended (action token): the blank behind its closing brace counts
         while (buf.is_space(buf.cur())
-                    and type(buf.cur()) is not defs.LanguageToken):
+                    and type(buf.cur()) not in (defs.LanguageToken,
+                                                defs.ActionToken)):
             buf.next()
         if tok.txt not in self.the_macros:
             if not (math or tok.txt in self.unknowns):
